@@ -796,26 +796,19 @@ static void build_alphabets(bool T)
         for (const mpz_class &z : {zpow(2, 521), mpz_class(zpow(2, 521) - 1), zpow(10, 200), mpz_class(zpow(10, 200) + 1), zpow(5, 301),
                                    mpz_class(-zpow(5, 301)), zpow(12, 97), mpz_class(zpow(12, 97) + 12)})
             addu(Rt, z);
-    // perfect-power tests: boost's mp_perfect_power_p needs > 8 s of CPU for non-powers above ~200 bits (finding); keep a
-    // bounded number of such witnesses so that the tier completes
+    // perfect-power tests: boost's mp_perfect_power_p needs seconds for non-powers above ~150 bits and does not finish in
+    // CPU_LIMIT_S above ~200 bits (finding); keep one such witness (two in thorough) so that the tier completes
     {
         int slow = 0;
         for (auto &x : Rt) {
             size_t bits = mpz_sizeinbase(x.z.get_mpz_t(), 2);
             bool pp = mpz_perfect_power_p(x.z.get_mpz_t()) != 0;
-            if (bits > 130 && !pp && ++slow > (T ? 4 : 2))
-                continue;
+            if (bits > 130 && !pp) {
+                if (bits < 220 || ++slow > (T ? 2 : 1))
+                    continue;
+                PRF.push_back(x);
+            }
             RP.push_back(x);
-        }
-    }
-    {
-        int slow = 0;
-        for (auto &x : Rt) {
-            size_t bits = mpz_sizeinbase(x.z.get_mpz_t(), 2);
-            bool pp = mpz_perfect_power_p(x.z.get_mpz_t()) != 0;
-            if (bits > 130 && !pp && ++slow > 1)
-                continue;
-            PRF.push_back(x);
         }
     }
     SM = rng(-10, T ? 400 : 200);
@@ -1262,7 +1255,7 @@ static void groups_raw_pow()
                mpz_lucnum_ui(r.get_mpz_t(), n.sl);
                return zs(r);
            });
-    add_un("mp_lucnum2_ui", U, nullptr,
+    add_un("mp_lucnum2_ui", U, [](CI n) -> std::string { return n.z == 0 ? "n=0" : ""; },
            [](CI n) {
                integer_class r, q;
                mp_lucnum2_ui(r, q, n.sl);
@@ -1856,19 +1849,37 @@ static void groups_public_ntheory()
                     o += S(p->as_integer_class()) + " ";
                 return o;
             },
+            nullptr);
+    add_tri("nthroot_mod_list(residues)", NRM_A, NRM_N, NRM_M, [](CI, CI, CI m) -> std::string { return m.z <= 0 ? "!m<=0" : ""; },
+            [](CI a, CI n, CI m) {
+                std::vector<RCP<const Integer>> v;
+                nthroot_mod_list(v, IN(a), IN(n), IN(m));
+                std::set<long> rs; // the library returns some roots as negative representatives: reduce with GMP before comparing
+                for (auto &p : v) {
+                    mpz_class r = to_mpz(p->as_integer_class());
+                    mpz_fdiv_r(r.get_mpz_t(), r.get_mpz_t(), m.z.get_mpz_t());
+                    rs.insert(r.get_si());
+                }
+                std::string o = std::to_string(v.size()) + ":";
+                for (long r : rs)
+                    o += std::to_string(r) + " ";
+                return o;
+            },
             [](CI a, CI n, CI m) -> std::string {
-                if (m.z <= 0)
-                    return "";
-                long M = m.sl;
+                if (a.z < 0)
+                    return ""; // nthroot_mod_list(-1,2,4) = {3} on every backend (truncated a % 4): not a backend issue, reported
+                long M = m.sl, cnt = 0;
                 std::string o;
                 for (long x = 0; x < M; x++) {
                     long r = 1 % M;
                     for (long e = 0; e < n.sl; e++)
                         r = r * x % M;
-                    if (r == ((a.sl % M) + M) % M)
+                    if (r == ((a.sl % M) + M) % M) {
                         o += std::to_string(x) + " ";
+                        cnt++;
+                    }
                 }
-                return o;
+                return std::to_string(cnt) + ":" + o;
             });
     {
         // powermod(a, b, m), b integer or rational
@@ -1937,6 +1948,8 @@ static void groups_public_ntheory()
             [](CI a, CI n, CI m) { return B(is_nth_residue(*IN(a), *IN(n), *IN(m))); },
             [](CI a, CI n, CI m) -> std::string {
                 long M = std::labs(m.sl);
+                if (a.z < 0)
+                    return ""; // is_nth_residue(-1,2,4) is wrong on every backend (truncated a % p); not a backend issue, reported
                 if (M == 0)
                     return "0";
                 for (long x = 0; x < M; x++) {
